@@ -282,7 +282,7 @@ func genTree(r *simkit.RNG, sc *Scenario, k *knobs) {
 				opts = append(opts, "abs-in")
 			}
 			if k.outLinks {
-				opts = append(opts, "out-file", "out-dir", "out-dangle", "sibling-prefix", "case-sibling", "out-abs", "out-chain", "hist-ext", "parent", "out-notdir", "out-loop")
+				opts = append(opts, "out-file", "out-dir", "out-dangle", "sibling-prefix", "case-sibling", "out-abs", "out-chain", "hist-ext", "parent", "out-notdir", "out-loop", "out-abs-unclean")
 			}
 			if k.hostileLinks {
 				opts = append(opts, "cycle", "self", "loopdir", "fifo", "fifodir", "dircycle")
@@ -361,6 +361,9 @@ func genTree(r *simkit.RNG, sc *Scenario, k *knobs) {
 				nd.Target = up + simkit.Pick(r, cands)
 			case "out-abs":
 				nd.Target = ExtRoot + "/" + simkit.Pick(r, append(append([]string{}, extFiles...), extDirs...))
+			case "out-abs-unclean":
+				// an absolute target that is not spelled the shortest way
+				nd.Target = simkit.Pick(r, []string{ExtRoot + "/dir/", "/w//ext/dir", "/w/ext/./dir", ExtRoot + "/dir/sub/..", "/w/ext//file"})
 			case "out-chain":
 				nd.Target = up + "../ext/chain1"
 			case "hist-ext":
